@@ -33,11 +33,11 @@ fn call_with_name(op: u16, nparams: usize, name: &str, lang: &RealLang) -> Strin
 impl Property for C20 {
     fn id(&self) -> &'static str { "C20" }
     fn rule(&self) -> &'static str {
-        "ANM files with 1..3 entries, sprites with explicit ids anywhere (increasing, decreasing, duplicate, constant expressions), names repeated across entries (same id: legal; different id: must be an error), scripts with explicit numbers in any order, and sprite / script names used as instruction arguments before and after their definition; STD files whose instances name objects in any order; MSG / END files with sparse tables, a default entry, explicitly empty slots and shared scripts; ANM scripts carrying the name of a sprite; pre-TH10 ECL files whose timelines and subs call subs by name: every thing carries a unique marker (sprite width, object layer, a marker instruction), so the check finds in the re-read output file the id / index / script that the written number designates and compares it with the named thing; sprite ids also against the harness's own numbering model; unknown names and conflicting definitions must be rejected with an error. non-trivial = at least one name reference resolved in the written file"
+        "ANM files with 1..3 entries, sprites with explicit ids anywhere (increasing, decreasing, duplicate, constant expressions), names repeated across entries (same id: legal; different id: must be an error), scripts with explicit numbers in any order, and sprite / script names used as instruction arguments before and after their definition; STD files whose instances name objects in any order; MSG / END files with sparse tables, a default entry, explicitly empty slots and shared scripts; ANM scripts carrying the name of a sprite; pre-TH10 ECL files whose timelines and subs call subs by name; TH10+ ECL files whose instructions name subs by string: every thing carries a unique marker (sprite width, object layer, a marker instruction), so the check finds in the re-read output file the id / index / script that the written number designates and compares it with the named thing; sprite ids also against the harness's own numbering model; unknown names and conflicting definitions must be rejected with an error. non-trivial = at least one name reference resolved in the written file"
     }
     fn tape_len(&self, tier: Tier) -> usize { tier.pick(250, 400) }
     fn cases(&self, tier: Tier) -> u32 { tier.pick(120_000, 3_000_000) }
-    fn required_labels(&self, _tier: Tier) -> Vec<&'static str> { vec!["fmt:anm", "fmt:std", "fmt:msg", "fmt:ecl", "sprite-ref", "script-ref", "sub-ref", "timeline-sub-ref", "instance-ref", "table-ref", "default-entry", "empty-table-slot", "explicit-id", "decreasing-id", "dup-name-same-id", "sprite-script-shared-name", "forward-ref", "must-reject:unknown-name", "must-reject:conflict"] }
+    fn required_labels(&self, _tier: Tier) -> Vec<&'static str> { vec!["fmt:anm", "fmt:std", "fmt:msg", "fmt:ecl", "sprite-ref", "script-ref", "sub-ref", "modern-sub-ref", "timeline-sub-ref", "instance-ref", "table-ref", "default-entry", "empty-table-slot", "explicit-id", "decreasing-id", "dup-name-same-id", "sprite-script-shared-name", "forward-ref", "must-reject:unknown-name", "must-reject:conflict"] }
     fn max_discard_fraction(&self) -> f64 { 0.1 }
 
     fn generate(&self, tape: &mut Tape, _tier: Tier, _known: &Known) -> Value {
@@ -184,6 +184,29 @@ impl Property for C20 {
                 for j in order { text.push_str(&format!("script scr{} {{\n    ins_200(@blob=\"{}\");\n}}\n\n", j, marker_blob(j + 1))); }
                 json!({"fmt": fmt.name(), "game": game, "text": text, "refs": refs, "feats": feats, "bad": bad, "default_marker": default, "max_key": max_key})
             }
+            _ if tape.chance(1, 4) => {
+                // TH10+ ECL: subs are referred to by NAME (a length-prefixed string argument): the written string must be the
+                // name of a sub of the same file
+                let game = *tape.pick(MODERN_ECL_GAMES);
+                let lang = cached_lang(game, truth::LanguageKey::Ecl);
+                let ops: Vec<u16> = lang.sigs.iter().filter(|(op, sig)| !lang.intrinsic_ops.contains(op) && sig.real_params().first().map_or(false, |p| p.ch == 'P') && sig.real_params().iter().filter(|p| p.is_string()).count() == 1 && !sig.params.iter().any(|p| matches!(p.kind, crate::model::codec::PKind::Off | crate::model::codec::PKind::Time))).map(|(o, _)| *o).collect();
+                if ops.is_empty() { return json!({"fmt": "ecl", "game": game, "text": "void main() {\n}\n", "refs": [], "feats": [], "bad": Value::Null, "modern": true}); }
+                let nsubs = 1 + tape.below(4);
+                let names: Vec<String> = (0..nsubs).map(|i| if i == 0 { "main".to_string() } else { format!("{}{}", *tape.pick(&["Boss", "Sub", "MainSub", "a"]), i) }).collect();
+                let mut text = String::new(); let mut refs = vec![];
+                for i in 0..nsubs {
+                    let mut body = String::new();
+                    for _ in 0..tape.below(4) {
+                        let op = *tape.pick(&ops);
+                        let j = tape.below(nsubs);
+                        let name = if bad.is_some() && tape.chance(1, 2) { "NoSuchSub".to_string() } else { names[j].clone() };
+                        body.push_str(&format!("    {}\n", call_with_name(op, 0, &name, &lang)));
+                        refs.push(json!({"kind": "modern-sub", "script": i, "op": op, "name": name}));
+                    }
+                    text.push_str(&format!("void {}() {{\n{}}}\n\n", names[i], body));
+                }
+                json!({"fmt": "ecl", "game": game, "text": text, "refs": refs, "feats": ["modern-ecl-sub-name"], "bad": bad, "modern": true, "sub_names": names})
+            }
             _ => {
                 // ECL
                 let game = *tape.pick(ECL_GAMES);
@@ -305,6 +328,26 @@ impl Property for C20 {
                 if let Some(dm) = case["default_marker"].as_u64() {
                     let keys: Vec<u64> = refs.iter().map(|r| r["key"].as_u64().unwrap()).collect();
                     for idx in 0..m.dense_table.len() { if !keys.contains(&(idx as u64)) { let got = marker_of_entry(idx); if got.map(|x| x as u64) != Some(dm) { return fail("default-entry", format!("table entry {} is not listed, so it takes the default (marker {}), but the written entry points at marker {:?}", idx, dm, got)); } } }
+                }
+            }
+            FileStruct::Ecl(truth::EclFile::Stack(e)) => {
+                let names: Vec<String> = case["sub_names"].as_array().map(|a| a.iter().map(|x| x.as_str().unwrap().to_string()).collect()).unwrap_or_default();
+                for (i, n) in names.iter().enumerate() {
+                    let Some((_, sub)) = e.subs.iter().find(|(k, _)| &k.value == n) else { return fail("sub-missing", format!("sub {} is not in the written file", n)); };
+                    // the name arguments of this sub's instructions, in order
+                    let want: Vec<&Value> = refs.iter().filter(|r| r["script"].as_u64() == Some(i as u64)).collect();
+                    let got: Vec<&RawInstr> = sub.instrs.iter().filter(|ins| want.iter().any(|r| r["op"].as_u64() == Some(ins.opcode as u64))).collect();
+                    if want.len() != got.len() { return fail("modern-sub-ref", format!("sub {}: {} calls with a sub name were written for {} in the source", n, got.len(), want.len())); }
+                    for (r, ins) in want.iter().zip(&got) {
+                        ctx.label("modern-sub-ref"); ctx.nontrivial();
+                        // length-prefixed string: u32 length, then the bytes, NUL-padded to a multiple of 4
+                        let b = &ins.args_blob;
+                        let len = b.get(0..4).map(|x| u32::from_le_bytes([x[0], x[1], x[2], x[3]]) as usize).unwrap_or(0);
+                        let bytes = b.get(4..4 + len).unwrap_or(&[]);
+                        let s = String::from_utf8_lossy(&bytes[..bytes.iter().position(|c| *c == 0).unwrap_or(bytes.len())]).into_owned();
+                        if Some(s.as_str()) != r["name"].as_str() { return fail("modern-sub-ref", format!("sub {}: ins_{} names sub {} but the written name is {:?}", n, ins.opcode, r["name"], s)); }
+                        if !e.subs.keys().any(|k| k.value == s) { return fail("modern-sub-ref", format!("sub {}: ins_{} was written with the name {:?}, which is not a sub of the written file", n, ins.opcode, s)); }
+                    }
                 }
             }
             FileStruct::Ecl(truth::EclFile::Olde(e)) => {
